@@ -13,12 +13,12 @@ def le8(v):
     return list((v & (2 ** 64 - 1)).to_bytes(8, "little"))
 
 
-def build(ctx):
+def build(ctx, alt=False):
     R = core.REPO
-    o = os.path.join(ctx.work, "sprintf.o")
-    ctx.sh(["gcc", "-std=gnu11", "-g", "-O1", "-fsanitize=address", "-fno-omit-frame-pointer", "-w", "-fno-builtin", "-I" + R,
+    o = os.path.join(ctx.work, "sprintf%s.o" % ("_alt" if alt else ""))
+    ctx.sh(["gcc", "-std=gnu11", "-g"] + core.opt_flags(alt) + ["-fsanitize=address", "-fno-omit-frame-pointer", "-w", "-fno-builtin", "-I" + R,
             "-Dsprintf=igv_sprintf", "-Dvsprintf=igv_vsprintf", "-Dsnprintf=igv_snprintf", "-c", R + "/compat/libc/stdio/sprintf.c", "-o", o], timeout=300)
-    return ctx.cxx("drv_printf", ["drv_printf.cpp", R + "/igris/util/printf_impl.c"], objs=[o], libs=["-lm"])
+    return ctx.cxx("drv_printf" + ("_alt" if alt else ""), ["drv_printf.cpp", R + "/igris/util/printf_impl.c"], objs=[o], libs=["-lm"], alt=alt)
 
 
 def int_args(w, signed):
@@ -150,6 +150,11 @@ def check(ctx):
     ctx.samples.append({"calls": [script[1], script[len(script) // 2], script[-1]]})
     t = ctx.drive(drv, script, "printf")
     bad = ctx.judge("PrintfTrace", [t], shards=16)
+    # the second build configuration (size-optimised, plain char unsigned) on part of the executions
+    ta = ctx.drive(build(ctx, alt=True), core.subset_executions(script, ctx.seed, 1.0 if ctx.thorough else 0.34), "printf_alt")
+    bada = ctx.judge("PrintfTrace", [ta], shards=16)
+    for b in bada: b["driver"] = "drv_printf@alt"
+    bad += bada
     for b in bad: b["driver"] = "drv_printf"
     ctx.report(bad)
     ctx.assumptions += [
@@ -163,7 +168,7 @@ def check(ctx):
 
 def replay(ctx, path):
     d = json.load(open(path))
-    drv = build(ctx)
+    drv = build(ctx, alt=core.is_alt(d))
     e = d["event"]
     if e.get("e") == "Fault":
         return core.replay_fault(ctx, d, drv, "PrintfTrace", path)
